@@ -303,22 +303,27 @@ def lexer_regex_families(ctx):
                 signal.alarm(0)
                 signal.signal(signal.SIGALRM, old)
             best = min(best, time.process_time() - t0)
-            if best > 2.0:
+            if best < 0.05:
                 break
         return best
+
+    def reference(n):
+        """CPU seconds for a plainly linear input of n tokens, measured at the same moment: on a contended (virtualised)
+        machine CPU seconds themselves inflate, so an absolute limit is only believed together with this ratio."""
+        return max(lex_time("a " * n, n), 1e-4)
 
     for name, f in fams.items():
         # short inputs: an exponential pattern needs seconds for a few dozen characters
         small = [lex_time(f(n), n) for n in (12, 24)]
         ctx.count(2)
-        if max(small) > 0.5:
+        if max(small) > 0.5 and max(small) > 100 * reference(2000):
             ctx.fail("lexer regex family %s: %.2f s of CPU for an input of %d characters" % (name, max(small), len(f(24))),
                      dict(kind="regex", family=name))
             continue
         # growth: two successive doublings both far above linear, or seconds for a few thousand characters
         big = [lex_time(f(n), n) for n in (2000, 4000, 8000)]
         ctx.count(3)
-        if max(big) > 3.0 or (big[0] > 0.01 and big[1] > 3.2 * big[0] and big[2] > 3.2 * big[1]):
+        if (max(big) > 3.0 and max(big) > 60 * reference(8000)) or (big[0] > 0.01 and big[1] > 3.2 * big[0] and big[2] > 3.2 * big[1]):
             ctx.fail("lexer regex family %s: CPU seconds %s at sizes (2000, 4000, 8000)" % (name, ["%.3f" % t for t in big]),
                      dict(kind="regex", family=name))
     ctx.note("lexer_regex_families", sorted(fams))
